@@ -130,38 +130,8 @@ CHECKS = {
 }
 
 # what later rounds of seeded changes added to each exploration (appended to the level text)
-ADDENDA = {
-    'C01': "Expressions that differ only in the order of union members run in ONE interpreter, one after the other (they compare and hash equal, so a memo must be shown not to confuse them), incl. overlapping unions inside eight kinds of container; after every mutable container of a result has been modified, the same data must convert to the same image again. The tagged unions have a reference model too (variants are fixture dataclasses); int / Any are also spelled as bound / free TypeVars; a non-member that raises anything but ConvertError is reported; every type's first values are judged a second time after the whole pass.",
-    'C02': "Now 19 contexts (Annotated with a condition that always holds, a Counter count, a field behind an init=False field, a defaulted field, a class carrying custom={int: ...}) and every single context also with custom={int: stock converter} passed to the call. Targets include the numpy scalar types; a constructor argument of another kind that equals the field's default is a separate call mode; floats / complex equal to int literals are in the data.",
-    'C03': "A pass that lets an exception through which the other pass handles counts as disagreement; data include over-long regex repetitions and a non-frozen class whose hook assigns a field; tagged unions also as members of untagged unions.",
-    'C04': "Adversarial atoms include ints beyond the interpreter's str-digits limit as values and as KEYS, and every mapping is also presented as a bare collections.abc.Mapping (no copy / pop). Texts that hold no document or an empty one go through from_yaml / from_yaml_all / from_json for every small type.",
-    'C05': "Mix-in enums, nested set-like keys, Optional fields with non-None defaults and field renames under a class style are part of the fixtures. A dataclass with a field that is neither written nor compared is explored as set member and mapping key, with Python's own == after the round trip; the precondition (output form enabled on input) is applied to every dataclass in the type.",
-    'C06': "ValueOrList values are also built natively (from_val / from_list), alone and inside containers; order twins of unions share an interpreter. A dataclass whose fields carry converter= is built from already-typed arguments; the ValueOrList ambiguity finding is matched by a predicate computed without the converter under test.",
-    'C07': "Tagged unions (three layouts, alone and inside untagged unions) must report the selected variant's own tree; order twins of unions share an interpreter. A stream of YAML documents that fails must give the tree of converting the list of documents.",
-    'C08': "For a union every path component that each member ALONE reports must be named (alternatives with equal descriptions included); values whose rendering would fail (huge ints) are part of the data. ... and the same text; unprintable mapping KEYS (unexpected fields) are part of the data.",
-    'C09': "Cls.from_dict_unchecked is an entry point; snapshots are order-sensitive (a key taken out and put back is a modification). into_data(container, T) on inserting mappings is an entry point.",
-    'C10': "Every probe runs from_data and into_data; handler forms include ONE mapping object whose entries change between calls; pristine outcomes are computed per probe in a forked child; all ordered sequences of <= 3 (thorough 4) probes run through one memoised converter for six long-lived types; when a schedule bound is capped the bound below is completed and reported. Handler-form sequences (all sequences of <= 3 of the six handler forms) for four long-lived dataclasses incl. one with a class rename style and one whose hook appends to a default container; reader-call histories (from_yaml / from_yaml_all / from_json in all orders of three).",
-    'C11': "17 forms (tuple / struct literals, builtin list, class handlers, type variables bound to or duplicated by a member, one generic class subscripted with the whole union), both member orders in one interpreter, sequences of equal-but-differently-typed values (1, 1.0, True; 0.0, -0.0), and ten unions with non-adjacent Literal members. convert(data, U) must agree with the left-most member; two dataclasses sharing a name in one union.",
-    'C12': "Also: the same variants under a second tag attribute, inside a tuple-output dataclass, content key before tag key, as a later member of four untagged unions, Tagged followed by a condition, and write_json / write_yaml / from_json / from_yaml with ty=. Variants whose tag field is init=False (internal layout).",
-    'C13': "63 atoms incl. eight raising exception classes and three DISTINCT predicates that share one name (bundled, combined, and met one after the other in one interpreter); three more placements put the annotated type under call-level / class-level custom= handlers for its inner type. 10**400 in the int grid (finite, beyond float range).",
-    'C14': "22 field kinds (excluded fields, mapping arguments with keys of different runtime types, a default written in unconverted form and passed back as the same object) and 4 hooks (none, counting, raising, assigning); unvalidated instances as arguments. A bool argument for an int field and an Ellipsis default are part of the kinds.",
-    'C15': "Every configuration also with a hidden init=False field and as a subscripted generic class; mapping data also as MappingProxyType and bare Mapping; output also through Union[look-alike class, cls]. Also an excluded-field variant of every configuration and deque data for the positional layout.",
-    'C16': "Class bodies also with an explicit __hash__ = None (with and without __eq__); a real subclass of a subscripted generic is unequal to the generic; derived classes; an excluded field in the copy / replace histories. Ordering across generic parameterisations must agree with equality.",
-    'C17': "16 field-type shapes (a generic dataclass directly, below List / Optional / Dict / Annotated, partially bound, through a re-parameterised alias), a field converter on a type-variable annotation, mixins, diamonds, plain mixin before the pane base, inherited init=False field. Unions that mention the type variable next to an overlapping member, both orders, with a value check.",
-    'C18': "5 targets (incl. str) x 16 shapes (incl. keys of undeclared key type, converter on a type-variable field of a subscripted generic) ; histories: one mapping object edited between calls, three levels sharing a handler object, one handler object as class handler then as call handler and back. Shape tagged_variant; every file reader and writer with custom=.",
-    'C19': "The pool includes tagged unions in three layouts and declared str-subclass types (alone, in a list, as a key, as a field). from_yaml_all for Union[int, float] and Union[float, int] in one interpreter; reader-call histories.",
-    'C20': "The class path covers rename=, in_rename=, dict(rename=), dict(set_only=True, rename=) and field(out_name=) under a class style; history-dependent witnesses (a memo keyed too coarsely) are confirmed by re-running the originating shard. dict(rename=<every other style>) on classes with their own style; malformed field names through the class path.",
-}
-
-ADDENDA6 = {
-    'C01': "Fixtures include a generic dataclass nested in a subscripted generic dataclass, tagged unions inside a tuple-layout class, list-of-dataclass / mapping-of-list fields and a class that inherits its hook.",
-    'C02': "Call modes plain / custom / yaml / json / construct; data include one-byte bytes and bytearray values; numpy scalar targets.",
-    'C10': "Thread scenarios include two threads converting ONE shared value object; a separate shard runs reader-call histories and multi-document unions in both member orders.",
-    'C11': "Serialisation is judged without data: the output for a typed value must be the serialisation by a member that reads it back.",
-    'C12': "A variant and its subclass that inherit one tag value must be refused when the type is built.",
-    'C14': "A derived class that inherits a raising / assigning __post_init__ is explored like its base.",
-    'C17': "Form 'regeneric': a generic class whose field is another generic class re-parameterised with the outer variable.",
-}
+sys.path.insert(0, V)
+from mc.addenda import ADDENDA, ADDENDA6  # noqa: E402
 
 PENDING_REASON = "check not built yet (work in progress; planned as bounded-exhaustive model checking, see DESIGN.md section 3)"
 
